@@ -5,7 +5,7 @@ from __future__ import annotations
 import math
 import random
 
-T_POOL = [0.0, 0.5, 1.0, 2.75, 10.0, 100.125, 0.125, 3.0, 999.5]
+T_POOL = [0.0, 0.5, 1.0, 2.75, 10.0, 100.125, 0.125, 3.0, 999.5, -1.0, -0.5, -2.75, -100.25]  # time may be negative
 
 
 def draw_point(rng: random.Random, defaults: dict, names, mode=None):
@@ -25,7 +25,7 @@ def draw_point(rng: random.Random, defaults: dict, names, mode=None):
         else:
             v = math.copysign(10 ** rng.uniform(-3, 3), rng.choice([-1, 1]))
         pt[n] = float(v)
-    pt["t"] = rng.choice(T_POOL) if rng.random() < 0.8 else round(rng.uniform(0, 50), 3)
+    pt["t"] = rng.choice(T_POOL) if rng.random() < 0.8 else round(rng.uniform(-10, 50), 3)
     return pt
 
 
